@@ -53,6 +53,13 @@ class RTCMMessage:
         self._payload = payload
         if self._payload is None:
             raise RTCMMessageError("Payload must be specified")
+        if len(self._payload) < 2 or (
+            (self._payload[0] << 4 | self._payload[1] >> 4) == 4076
+            and len(self._payload) < 3
+        ):
+            raise RTCMMessageError(
+                f"Payload too short to hold a message identity ({len(self._payload)} bytes)"
+            )
         self._payloadi = int.from_bytes(self._payload, "big")  # payload as int
         self._payblen = len(self._payload) * 8  # length of payload in bits
         self._labelmsm = labelmsm
